@@ -241,7 +241,13 @@ def exec_tree(ctx, case):
     if sum(lens) / spacing > cap:
         spacing = sum(lens) / cap
     fp = contracts.fingerprint(tree)
-    rs = IsometricResampler(spacing)
+    if case["tree"]["seed"] % 3 == 0:
+        spacing = float(np.float32(spacing))
+        rs = IsometricResampler(np.float32(spacing))  # callers pass numpy scalars too
+    elif case["tree"]["seed"] % 3 == 1 and spacing >= 1 and spacing == int(spacing):
+        rs = IsometricResampler(int(spacing))
+    else:
+        rs = IsometricResampler(spacing)
     out = rs(tree)
     ctx.count("tree_resamplings")
     if check_resampled_tree(ctx, case, tree, out, spacing, f"IsometricResampler({spacing:.6g})"):
